@@ -1,4 +1,4 @@
-import Proofs.RunLemmas
+import Proofs.HyphenTrace
 /-!
 # Hyphens at template level: definitions and the paired-trace calculus (helpers for C13)
 
@@ -207,25 +207,7 @@ end
 /-! ## Quiet actions: no trim-writer operation at all -/
 
 /-- `m` performs no trim-writer operation, whatever the variables -/
-def Quiet {α} (m : M α) : Prop := ∀ env, ∃ o, TracedAt m env [] o
-
-theorem tracedAt_bind_err {α β} {m : M α} {f : α → M β} {env : Env} {ops : List WOp} {e : RawErr}
-    (h : TracedAt m env ops (.err e)) : TracedAt (m >>= f) env ops (.err e) := by
-  intro tw
-  show ((m ⟨env, tw⟩).bind (fun (a, s') => f a s')).runPure = _
-  rw [Prog.runPure_bind, h tw]; rfl
-
-theorem tracedAt_bind_panic {α β} {m : M α} {f : α → M β} {env : Env} {ops : List WOp} {w : String}
-    (h : TracedAt m env ops (.panic w)) : TracedAt (m >>= f) env ops (.panic w) := by
-  intro tw
-  show ((m ⟨env, tw⟩).bind (fun (a, s') => f a s')).runPure = _
-  rw [Prog.runPure_bind, h tw]; rfl
-
-theorem tracedAt_bind_unmodelled {α β} {m : M α} {f : α → M β} {env : Env} {ops : List WOp} {w : String}
-    (h : TracedAt m env ops (.unmodelled w)) : TracedAt (m >>= f) env ops (.unmodelled w) := by
-  intro tw
-  show ((m ⟨env, tw⟩).bind (fun (a, s') => f a s')).runPure = _
-  rw [Prog.runPure_bind, h tw]; rfl
+def Quiet {α} (m : M α) : Prop := ∀ env, ∃ o, TracedAtL m env [] o
 
 theorem quiet_bind {α β} {m : M α} {f : α → M β} (hm : Quiet m) (hf : ∀ a, Quiet (f a)) : Quiet (m >>= f) := by
   intro env
@@ -233,10 +215,10 @@ theorem quiet_bind {α β} {m : M α} {f : α → M β} (hm : Quiet m) (hf : ∀
   cases o1 with
   | ok a env1 =>
     obtain ⟨o2, h2⟩ := hf a env1
-    exact ⟨o2, by simpa using tracedAt_bind_ok h1 h2⟩
-  | err e => exact ⟨.err e, tracedAt_bind_err h1⟩
-  | panic w => exact ⟨.panic w, tracedAt_bind_panic h1⟩
-  | unmodelled w => exact ⟨.unmodelled w, tracedAt_bind_unmodelled h1⟩
+    exact ⟨o2, by simpa using tracedAtL_bind_ok h1 h2⟩
+  | err e => exact ⟨.err e, tracedAtL_bind_err h1⟩
+  | panic w => exact ⟨.panic w, tracedAtL_bind_panic h1⟩
+  | unmodelled w => exact ⟨.unmodelled w, tracedAtL_bind_unmodelled h1⟩
 
 theorem quiet_pure {α} (a : α) : Quiet (pure a : M α) := fun env => ⟨.ok a env, fun _ => rfl⟩
 theorem quiet_fail {α} (e : RawErr) : Quiet (M.fail e : M α) := fun _ => ⟨.err e, fun _ => rfl⟩
@@ -255,7 +237,7 @@ theorem quiet_ofRes {α} (r : Res Cause α) : Quiet (M.ofRes r) := by
 theorem quiet_mapFail {α} {m : M α} (g : RawErr → RawErr) (hm : Quiet m) : Quiet (M.mapFail g m) := by
   intro env
   obtain ⟨o, h⟩ := hm env
-  exact ⟨o.mapErr g, tracedAt_mapFail g h⟩
+  exact ⟨o.mapErr g, tracedAtL_mapFail g h⟩
 
 theorem quiet_wrapFailAt {α} (path : Bytes) (loc : Loc) {m : M α} (hm : Quiet m) : Quiet (wrapFailAt path loc m) :=
   quiet_mapFail _ hm
@@ -327,7 +309,7 @@ theorem quiet_whenMatches (c : RCtx) (sel : GoVal) : ∀ es : List Expr, Quiet (
 
 /-- from every variable map, `m` and `m'` end with the same result, after operation lists related by `R` -/
 def GPair {α} (R : List WOp → List WOp → Prop) (m m' : M α) : Prop :=
-  ∀ env, ∃ ops ops' o, TracedAt m env ops o ∧ TracedAt m' env ops' o ∧ R ops ops'
+  ∀ env, ∃ ops ops' o, TracedAtL m env ops o ∧ TracedAtL m' env ops' o ∧ R ops ops'
 
 /-- what the calculus needs of the relation: it holds of empty lists, is compatible with
     concatenation, and relates a write of an admitted chunk (`W`) / a flush to itself -/
@@ -352,16 +334,16 @@ theorem gpair_bind {α β} (hR : RelOK W R) {m m' : M α} {f f' : α → M β} (
   cases o1 with
   | ok a env1 =>
     obtain ⟨ops2, ops2', o2, h2, h2', r2⟩ := hf a env1
-    exact ⟨ops1 ++ ops2, ops1' ++ ops2', o2, tracedAt_bind_ok h1 h2, tracedAt_bind_ok h1' h2', hR.app r1 r2⟩
-  | err e => exact ⟨ops1, ops1', .err e, tracedAt_bind_err h1, tracedAt_bind_err h1', r1⟩
-  | panic w => exact ⟨ops1, ops1', .panic w, tracedAt_bind_panic h1, tracedAt_bind_panic h1', r1⟩
-  | unmodelled w => exact ⟨ops1, ops1', .unmodelled w, tracedAt_bind_unmodelled h1, tracedAt_bind_unmodelled h1', r1⟩
+    exact ⟨ops1 ++ ops2, ops1' ++ ops2', o2, tracedAtL_bind_ok h1 h2, tracedAtL_bind_ok h1' h2', hR.app r1 r2⟩
+  | err e => exact ⟨ops1, ops1', .err e, tracedAtL_bind_err h1, tracedAtL_bind_err h1', r1⟩
+  | panic w => exact ⟨ops1, ops1', .panic w, tracedAtL_bind_panic h1, tracedAtL_bind_panic h1', r1⟩
+  | unmodelled w => exact ⟨ops1, ops1', .unmodelled w, tracedAtL_bind_unmodelled h1, tracedAtL_bind_unmodelled h1', r1⟩
 
 theorem gpair_mapFail {α} {m m' : M α} (g : RawErr → RawErr) (hm : GPair R m m') :
     GPair R (M.mapFail g m) (M.mapFail g m') := by
   intro env
   obtain ⟨ops, ops', o, h, h', r⟩ := hm env
-  exact ⟨ops, ops', o.mapErr g, tracedAt_mapFail g h, tracedAt_mapFail g h', r⟩
+  exact ⟨ops, ops', o.mapErr g, tracedAtL_mapFail g h, tracedAtL_mapFail g h', r⟩
 
 theorem gpair_wrapFailAt {α} (path : Bytes) (loc : Loc) {m m' : M α} (hm : GPair R m m') :
     GPair R (wrapFailAt path loc m) (wrapFailAt path loc m') := gpair_mapFail _ hm
@@ -372,10 +354,10 @@ theorem gpair_wrapAt (hR : RelOK W R) (path : Bytes) (loc : Loc) {m m' : M Statu
   exact gpair_bind hR (gpair_mapFail _ hm) (fun _ => gpair_quiet hR (quiet_pure _))
 
 theorem gpair_write (hR : RelOK W R) (b : Bytes) (hb : W b) : GPair R (writeM b) (writeM b) :=
-  fun env => ⟨_, _, _, tracedAt_write b env, tracedAt_write b env, hR.write b hb⟩
+  fun env => ⟨_, _, _, tracedAtL_write b env, tracedAtL_write b env, hR.write b hb⟩
 
 theorem gpair_flush (hR : RelOK W R) : GPair R flushM flushM :=
-  fun env => ⟨_, _, _, tracedAt_flush env, tracedAt_flush env, hR.flush⟩
+  fun env => ⟨_, _, _, tracedAtL_flush env, tracedAtL_flush env, hR.flush⟩
 
 theorem gpair_writeAll (hR : RelOK W R) : ∀ cs : List Bytes, (∀ b ∈ cs, W b) → GPair R (writeAllM cs) (writeAllM cs)
   | [], _ => gpair_quiet hR (quiet_pure ())
@@ -470,10 +452,10 @@ theorem quiet_inc (c : RCtx) (hc : IncQuiet c) (line : Nat) (f : Bytes) (env0 : 
   intro env
   have hq := hc line f env0
   cases h : c.inc line f env0 with
-  | ret r => exact ⟨.ok r env, fun tw => by simp [Prog.bind, Prog.runPure, TW.run, EOut.withTw]⟩
-  | fail e => exact ⟨.err e, fun tw => by simp [Prog.bind, Prog.runPure, TW.run, EOut.withTw]⟩
-  | panic w => exact ⟨.panic w, fun tw => by simp [Prog.bind, Prog.runPure, TW.run, EOut.withTw]⟩
-  | unmodelled w => exact ⟨.unmodelled w, fun tw => by simp [Prog.bind, Prog.runPure, TW.run, EOut.withTw]⟩
+  | ret r => exact ⟨.ok r env, fun tw => by simp [Prog.bind, Prog.runLog, TW.run, EOut.withTw]⟩
+  | fail e => exact ⟨.err e, fun tw => by simp [Prog.bind, Prog.runLog, TW.run, EOut.withTw]⟩
+  | panic w => exact ⟨.panic w, fun tw => by simp [Prog.bind, Prog.runLog, TW.run, EOut.withTw]⟩
+  | unmodelled w => exact ⟨.unmodelled w, fun tw => by simp [Prog.bind, Prog.runLog, TW.run, EOut.withTw]⟩
   | call b k => rw [h] at hq; exact absurd hq (by simp [NoCalls])
 
 end pair
